@@ -1083,6 +1083,15 @@ def rules(rep, facts):
     r10_regular_language(rep, g, a)
     if 'toml' in facts.crates:
         r7_single_parser(rep, facts)
+    if 'toml_datetime' in facts.crates:
+        # the serde front end re-parses every date-time with the standalone parser: its verdicts must be the grammar's
+        from .rules_c12 import r1_fields, r2_calendar, r7_shapes
+        st = r1_fields(rep, facts, g)
+        if st is not None:
+            r2_calendar(rep, facts, st)
+        r7_shapes(rep, facts)
+        for old in ('C12/R1', 'C12/R2', 'C12/R7'):
+            rep.relabel(old, 'C01/R11', 'same verdict from both front ends (the serde route re-parses date-times with Datetime::from_str): ' if old == 'C12/R1' else '')
 
 
 def run(tier):
